@@ -27,12 +27,16 @@ def gen_program(ch: Choices, root: str):
         klass = CLASSES[ch.choice(len(CLASSES), "class")]
         nest = ch.choice(3, "nest")  # 0 bare, 1 in list, 2 in dict
         shallow = bool(ch.choice(2, "shallow"))
+        # some outputs are zero-byte marker files ("done" flags): an empty file and a missing
+        # file must still be told apart
+        empty = ch.choice(4, "empty-output") == 3
         path = os.path.join(root, f"out{i}")
-        specs.append({"i": i, "klass": klass, "nest": nest, "path": path, "shallow": shallow})
+        specs.append({"i": i, "klass": klass, "nest": nest, "path": path, "shallow": shallow,
+                      "empty": empty})
         opt = "check_valid='shallow'" if shallow else ""
         if klass in ("File", "ContentFile", "IFile"):
             body = (f"    f = {klass}({path + '.txt'!r})\n"
-                    f"    f.write('content-{i}-%s' % x)\n"
+                    + (f"    f.write('')\n" if empty else f"    f.write('content-{i}-%s' % x)\n") +
                     f"    stamp(f)\n")
             val = "f"
         elif klass in ("Dir", "ContentDir", "IDir"):
@@ -40,7 +44,8 @@ def gen_program(ch: Choices, root: str):
                     f"    d.mkdir()\n"
                     f"    for k in range(2):\n"
                     f"        m = File(os.path.join(d.path, 'm%d.txt' % k))\n"
-                    f"        m.write('content-{i}-%s-%d' % (x, k))\n"
+                    + (f"        m.write('')\n" if empty else
+                       f"        m.write('content-{i}-%s-%d' % (x, k))\n") +
                     f"        stamp(m)\n"
                     f"    d.update_hash()\n")
             val = "d"
@@ -48,7 +53,8 @@ def gen_program(ch: Choices, root: str):
             body = (f"    os.makedirs({path + '_set'!r}, exist_ok=True)\n"
                     f"    for k in range(2):\n"
                     f"        m = File(os.path.join({path + '_set'!r}, 'm%d.txt' % k))\n"
-                    f"        m.write('content-{i}-%s-%d' % (x, k))\n"
+                    + (f"        m.write('')\n" if empty else
+                       f"        m.write('content-{i}-%s-%d' % (x, k))\n") +
                     f"        stamp(m)\n"
                     f"    d = FileSet(os.path.join({path + '_set'!r}, '*.txt'))\n"
                     f"    d.update_hash()\n")
@@ -204,7 +210,9 @@ class C04(EngineACheck):
                                     txt = f.read()
                             except OSError:
                                 txt = None
-                            if txt is None or not txt.startswith(f"content-{s['i']}-"):
+                            good = txt == "" if s["empty"] else (
+                                txt is not None and txt.startswith(f"content-{s['i']}-"))
+                            if not good:
                                 if os.path.basename(p).startswith("extra"):
                                     continue
                                 out.violate("C04.result_reflects_state", f"{s['klass']}:stale-bytes",
